@@ -2179,3 +2179,138 @@ pub fn c15(ctx: &mut Ctx, a: &str, bb: &str) {
     if x.as_bytes() != b(a) || y.as_bytes() != b(bb) { ctx.fail("C15.unchanged", f(), "an argument was modified".into()); }
     ctx.nontrivial_cur();
 }
+
+// =====================================================================  C16
+
+fn c16_feats(kind: &str, value: &[u8], prefix: &[u8], want_some: bool) -> Feats {
+    vec![
+        ("family", FAM.into()),
+        ("kind", kind.into()),
+        ("expected", if want_some { "some".into() } else { "none".into() }),
+        ("octets", octet_class(&[value, prefix]).into()),
+        ("value_path", path_form(model::split(value).path).into()),
+    ]
+}
+
+/// Model: remaining normalized segments of `value` after `prefix`, or None.
+fn c16_model_suffix(vpath: &[u8], ppath: &[u8]) -> Option<Vec<Vec<u8>>> {
+    let (va, vs) = model::segments(vpath);
+    let (pa, ps) = model::segments(ppath);
+    if va != pa { return None; }
+    let vn = model::norm_seq(va, &vs);
+    let pn = model::norm_seq(pa, &ps);
+    if pn.len() > vn.len() { return None; }
+    for i in 0..pn.len() {
+        if !model::eq_component(pn[i], vn[i]) { return None; }
+    }
+    Some(vn[pn.len()..].iter().map(|x| x.to_vec()).collect())
+}
+
+fn c16_check_suffix_path(ctx: &mut Ctx, kind: &str, value: &[u8], prefix: &[u8], vpath: &[u8], ppath: &[u8], want: &Option<Vec<Vec<u8>>>, got: Option<&[u8]>) {
+    let f = || c16_feats(kind, value, prefix, want.is_some());
+    match (want, got) {
+        (None, None) => { ctx.stratum("suffix:none"); }
+        (Some(w), None) => ctx.fail("C16.suffix-exists", f(), format!("{}: suffix of {} w.r.t. {} is None but the prefix's normalized segments lead the value's (remaining {})", kind, show(value), show(prefix), segs_show(w))),
+        (None, Some(g)) => ctx.fail("C16.suffix-exists", f(), format!("{}: suffix of {} w.r.t. {} is {} but the prefix is not a leading part", kind, show(value), show(prefix), show(g))),
+        (Some(w), Some(g)) => {
+            ctx.stratum("suffix:some");
+            if !valid(Prod::Path, g) {
+                ctx.fail("C16.suffix-path", f(), format!("{}: suffix {} is not a valid path", kind, show(g)));
+                return;
+            }
+            let (_ga, gs) = segs_owned(g);
+            let eq = |a: &[Vec<u8>], bb: &[Vec<u8>]| a.len() == bb.len() && a.iter().zip(bb.iter()).all(|(x, y)| model::eq_component(x, y));
+            if !(eq(&gs, w) || eq(&logical(&gs), w)) {
+                ctx.fail("C16.suffix-path", f(), format!("{}: suffix of {} w.r.t. {} is {} (segments {}) but the remaining segments are {}", kind, show(value), show(prefix), show(g), segs_show(&gs), segs_show(w)));
+                return;
+            }
+            // prefix ++ suffix is equal to the original path
+            let (pa, ps) = model::segments(ppath);
+            let mut joined: Vec<Vec<u8>> = model::norm_seq(pa, &ps).into_iter().map(|x| x.to_vec()).collect();
+            joined.extend(logical(&gs));
+            let jt = model::render_segments(pa, &joined.iter().map(|x| &x[..]).collect::<Vec<_>>());
+            let (va, vs) = model::segments(vpath);
+            let vn: Vec<Vec<u8>> = model::norm_seq(va, &vs).into_iter().map(|x| x.to_vec()).collect();
+            if !eq(&joined, &vn) {
+                ctx.fail("C16.suffix-join", f(), format!("{}: prefix {} ++ suffix {} = {} is not equal to the value's path {}", kind, show(ppath), show(g), show(&jt), show(vpath)));
+            }
+        }
+    }
+}
+
+pub fn c16_path(ctx: &mut Ctx, value: &str, prefix: &str) {
+    let (Ok(v), Ok(p)) = (Path::new(value), Path::new(prefix)) else { ctx.stratum("skipped:rejected-by-library"); return; };
+    let want = c16_model_suffix(b(value), b(prefix));
+    ctx.call("Path::suffix");
+    match crate::ctx::guard(|| v.suffix(p).map(|x| x.as_bytes().to_vec())) {
+        Err(m) => ctx.fail("C16.panic", c16_feats("Path", b(value), b(prefix), want.is_some()), format!("Path::suffix({}, {}) panicked: {}", show(b(value)), show(b(prefix)), m)),
+        Ok(got) => c16_check_suffix_path(ctx, "Path", b(value), b(prefix), b(value), b(prefix), &want, got.as_deref()),
+    }
+    ctx.nontrivial_cur();
+}
+
+pub fn c16_ref(ctx: &mut Ctx, value: &str, prefix: &str) {
+    let (Ok(v), Ok(p)) = (RiRef::new(value), RiRef::new(prefix)) else { ctx.stratum("skipped:rejected-by-library"); return; };
+    let vs = model::split(b(value));
+    let ps = model::split(b(prefix));
+    let head_ok = vs.scheme == ps.scheme && match (vs.authority, ps.authority) { (None, None) => true, (Some(x), Some(y)) => model::eq_authority(x, y), _ => false };
+    let want = if head_ok { c16_model_suffix(vs.path, ps.path) } else { None };
+    if !head_ok { ctx.stratum("suffix:head-differs"); }
+    ctx.call("RiRef::suffix");
+    let r = crate::ctx::guard(|| v.suffix(p).map(|(pb, q, f)| (pb.as_bytes().to_vec(), q.map(|x| (x.as_bytes().as_ptr() as usize, x.as_bytes().len())), f.map(|x| (x.as_bytes().as_ptr() as usize, x.as_bytes().len())))));
+    match r {
+        Err(m) => ctx.fail("C16.panic", c16_feats("RiRef", b(value), b(prefix), want.is_some()), format!("RiRef::suffix({}, {}) panicked: {}", show(b(value)), show(b(prefix)), m)),
+        Ok(got) => {
+            c16_check_suffix_path(ctx, "RiRef", b(value), b(prefix), vs.path, ps.path, &want, got.as_ref().map(|g| &g.0[..]));
+            if let (Some(_), Some((_, q, f))) = (&want, &got) {
+                let loc = |x: Option<&[u8]>| x.map(|s| (s.as_ptr() as usize, s.len()));
+                if *q != loc(vs.query) || *f != loc(vs.fragment) {
+                    ctx.fail("C16.suffix-qf", c16_feats("RiRef", b(value), b(prefix), true), format!("RiRef::suffix({}, {}): the accompanying query/fragment are not the value's own", show(b(value)), show(b(prefix))));
+                }
+            }
+        }
+    }
+    if let (Some(vi), Some(pi)) = (v.as_full(), p.as_full()) {
+        ctx.call("Ri::suffix");
+        match crate::ctx::guard(|| vi.suffix(pi).map(|(pb, _q, _f)| pb.as_bytes().to_vec())) {
+            Err(m) => ctx.fail("C16.panic", c16_feats("Ri", b(value), b(prefix), want.is_some()), format!("Ri::suffix panicked: {}", m)),
+            Ok(got) => c16_check_suffix_path(ctx, "Ri", b(value), b(prefix), vs.path, ps.path, &want, got.as_deref()),
+        }
+    }
+    ctx.nontrivial_cur();
+}
+
+pub fn c16_base(ctx: &mut Ctx, value: &str) {
+    let Ok(v) = RiRef::new(value) else { ctx.stratum("skipped:rejected-by-library"); return; };
+    let t = b(value);
+    let sp = model::split(t);
+    let pstart = sp.path.as_ptr() as usize - t.as_ptr() as usize;
+    let end = match sp.path.iter().rposition(|c| *c == b'/') { Some(i) => pstart + i + 1, None => pstart };
+    let want = &t[..end];
+    let f = |kind: &str| vec![("family", FAM.into()), ("kind", kind.to_string()), ("value_path", path_form(sp.path).into()), ("has_scheme", yn(sp.scheme.is_some())), ("has_authority", yn(sp.authority.is_some()))];
+    ctx.call("RiRef::base");
+    ctx.stratum(if sp.path.contains(&b'/') { "base:path-with-slash" } else { "base:path-without-slash" });
+    match crate::ctx::guard(|| { let x = v.base(); (x.as_bytes().to_vec(), inside(t, x.as_bytes())) }) {
+        Err(m) => ctx.fail("C16.panic", f("RiRef::base"), format!("base() of {} panicked: {}", show(t), m)),
+        Ok((got, ins)) => {
+            if got != want { ctx.fail("C16.base", f("RiRef::base"), format!("base() of {} = {} but the text up to the last '/' of the path is {}", show(t), show(&got), show(want))); }
+            else {
+                if !valid(Prod::RiRef, &got) { ctx.fail("C16.base-valid", f("RiRef::base"), format!("base() of {} = {} is not a valid reference", show(t), show(&got))); }
+                let gs = model::split(&got);
+                if gs.query.is_some() || gs.fragment.is_some() { ctx.fail("C16.base-valid", f("RiRef::base"), format!("base() of {} = {} has a query or fragment", show(t), show(&got))); }
+                if !ins { ctx.fail("C16.base-valid", f("RiRef::base"), format!("base() of {} is not a sub-slice of the input", show(t))); }
+            }
+        }
+    }
+    if let Some(vi) = v.as_full() {
+        ctx.call("Ri::base");
+        match crate::ctx::guard(|| vi.base().as_bytes().to_vec()) {
+            Err(m) => ctx.fail("C16.panic", f("Ri::base"), format!("Ri::base() of {} panicked: {}", show(t), m)),
+            Ok(got) => {
+                if got != want { ctx.fail("C16.base", f("Ri::base"), format!("Ri::base() of {} = {} instead of {}", show(t), show(&got), show(want))); }
+                else if !valid(Prod::Ri, &got) { ctx.fail("C16.base-valid", f("Ri::base"), format!("Ri::base() of {} = {} is not a valid URI/IRI", show(t), show(&got))); }
+            }
+        }
+    }
+    ctx.nontrivial_cur();
+}
